@@ -31,7 +31,7 @@ package main
 //
 // Trace format, one group per event:
 //
-//	N <n> <electionTick> <rngseed>
+//	N <n> <electionTick> <rngseed> <MaxSizePerMsg>
 //	EV <kind> <node> <args>
 //	OUT <msg>                     (0 or more: what the node handed to the network)
 //	ST <node> <term> <vote> <commit> <role F|C|L> <lead> <nlog> (<term> <payload>)*
@@ -68,6 +68,7 @@ type simNode struct {
 type cluster struct {
 	n            int
 	electionTick int
+	maxSize      uint64
 	nodes        []*simNode
 	flight       []pb.Message
 	w            *bufio.Writer
@@ -144,15 +145,15 @@ func (c *cluster) config(nd *simNode) *raft.Config {
 		ElectionTick:              c.electionTick,
 		HeartbeatTick:             1,
 		Storage:                   nd.st,
-		MaxSizePerMsg:             1024 * 1024,
+		MaxSizePerMsg:             c.maxSize,
 		MaxInflightMsgs:           256,
 		MaxUncommittedEntriesSize: 1 << 30,
 		Logger:                    theLogger,
 	}
 }
 
-func newCluster(n, electionTick int, rngseed uint64, w *bufio.Writer) (*cluster, error) {
-	c := &cluster{n: n, electionTick: electionTick, w: w, nextPayload: 1}
+func newCluster(n, electionTick int, rngseed uint64, maxSize uint64, w *bufio.Writer) (*cluster, error) {
+	c := &cluster{n: n, electionTick: electionTick, maxSize: maxSize, w: w, nextPayload: 1}
 	reseedRaftRand(rngseed)
 	voters := make([]uint64, n)
 	for i := range voters {
@@ -171,7 +172,7 @@ func newCluster(n, electionTick int, rngseed uint64, w *bufio.Writer) (*cluster,
 		nd.rn = rn
 		c.nodes = append(c.nodes, nd)
 	}
-	fmt.Fprintf(w, "N %d %d %d\n", n, electionTick, rngseed)
+	fmt.Fprintf(w, "N %d %d %d %d\n", n, electionTick, rngseed, maxSize)
 	// the initial Ready only persists HardState{Commit:1}; drain it silently
 	for _, nd := range c.nodes {
 		c.drain(nd)
@@ -420,8 +421,14 @@ func cmdSim(args []string) error {
 		if r.chance(1, 4) {
 			et = 3 + r.intn(6)
 		}
+		// MaxSizePerMsg: RedisGO's 1 MB, or 0 = one entry per MsgApp (what a large value or a small
+		// limit produces): then acknowledgements arrive entry by entry, old-term entries included
+		maxSize := uint64(1024 * 1024)
+		if r.chance(1, 3) {
+			maxSize = 0
+		}
 		fmt.Fprintf(w, "SCHEDULE %d\n", k)
-		c, err := newCluster(n, et, ss, w)
+		c, err := newCluster(n, et, ss, maxSize, w)
 		if err != nil {
 			return err
 		}
@@ -466,7 +473,11 @@ func cmdSimFile(args []string) error {
 			n, _ := strconv.Atoi(tok[1])
 			et, _ := strconv.Atoi(tok[2])
 			rs, _ := strconv.ParseUint(tok[3], 10, 64)
-			c, err = newCluster(n, et, rs, w)
+			ms := uint64(1024 * 1024)
+			if len(tok) > 4 {
+				ms, _ = strconv.ParseUint(tok[4], 10, 64)
+			}
+			c, err = newCluster(n, et, rs, ms, w)
 			if err != nil {
 				return err
 			}
